@@ -11,6 +11,7 @@ import (
 	"os"
 	"regexp"
 	"sort"
+	"strconv"
 	"strings"
 	"sync"
 	"testing"
@@ -202,7 +203,9 @@ type RTCase struct {
 }
 
 var pacResults = []string{"DIRECT", "", "PROXY @P", "PROXY @Q", "HTTP @P", "HTTPS @T", "SOCKS5 @S", "SOCKS @S", "SOCKS4 @S", "FOO @P", "proxy @P",
-	"PROXY @P; PROXY @Q", "PROXY @Q; DIRECT", "DIRECT; PROXY @P", "; PROXY @P", "PROXY", "PROXY 127.0.0.4", "@THROW", "@NUMBER", "@NULL", "HTTPS @T; SOCKS5 @S", "SOCKS5 @S; PROXY @P"}
+	"PROXY @P; PROXY @Q", "PROXY @Q; DIRECT", "DIRECT; PROXY @P", "; PROXY @P", "PROXY", "PROXY 127.0.0.4", "@THROW", "@NUMBER", "@NULL", "HTTPS @T; SOCKS5 @S", "SOCKS5 @S; PROXY @P",
+	// a first entry that cannot be parsed, followed by one that can: the request fails, the later entry is not a fallback
+	"PROXY 127.0.0.4; PROXY @Q", "PROXY @P.host:http; DIRECT", "PROXY :80; PROXY @Q", "HTTP @P extra; PROXY @Q", "PROXY; PROXY @Q", "HTTPS @T.host:99999; PROXY @P", "SOCKS5 @S.host; DIRECT"}
 
 func (e *rtEnv) subst(s string) string {
 	for n, p := range e.peers {
@@ -480,8 +483,11 @@ func (e *rtEnv) refRoute(cfg RTConfig, r RTReq) route {
 					x.fail = true
 					return x
 				}
-				if _, _, err := net.SplitHostPort(hp); err != nil {
+				if h, p, err := net.SplitHostPort(hp); err != nil || h == "" {
 					x.fail = true
+					return x
+				} else if n, err := strconv.Atoi(p); err != nil || n < 1 || n > 65535 {
+					x.fail = true // the port is a number
 					return x
 				}
 				switch kw {
